@@ -81,18 +81,20 @@ def write_if_changed(path, content):
     return True
 
 
-GENERATORS = [
-    # (script, output file under theories/Generated)
-    ('tools/gen_tlv_var.py', 'TlvVarGen.v'),
-    ('tools/gen_schemas.py', 'Schemas.v'),
-    ('tools/gen_consts.py', 'Consts.v'),
-]
+def generators():
+    """Every tools/gen_*.py is a translator; its output file is named by a line  OUTPUT = 'X.v'."""
+    out = []
+    for spath in sorted(glob.glob(os.path.join(VERIF, 'tools', 'gen_*.py'))):
+        m = re.search(r"^OUTPUT\s*=\s*'([A-Za-z0-9_]+\.v)'", open(spath).read(), re.M)
+        if m:
+            out.append((os.path.relpath(spath, VERIF), m.group(1)))
+    return out
 
 
 def regenerate(res):
     """Run T1/T2 translators.  A translator that aborts (fail-closed) writes a Generated file
     containing a deliberate type error naming the reason, so the dependent obligations break."""
-    for script, out in GENERATORS:
+    for script, out in generators():
         spath = os.path.join(VERIF, script)
         if not os.path.exists(spath):
             continue
